@@ -535,6 +535,33 @@ def roundtrip_through_the_real_stack(desc):
         H.check("C03:re-encoding-the-decoded-values-reproduces-the-pdu", H.eq(bytes(pdu2), bytes(pdu)))
 
 
+PREFIX_DESCRIPTIONS = ["sid+u8", "bitpos-spill", "lowhigh-12+4", "phys-const", "matching-request+const", "multiplexer"]
+
+
+@harness(props=["C06", "C08"], strength="B", family=lambda t, s: [{"desc": k} for k in PREFIX_DESCRIPTIONS],
+         bound="six of the concrete descriptions (constants sharing a byte with values, request echoes, physical "
+         "constants); values and the triggering request symbolic",
+         functions=[composite_codec_get_coded_const_prefix, Request.coded_const_prefix, Response.coded_const_prefix],
+         covers=["encoded"], assumes=["A-bitstruct"])
+def constant_prefix_is_a_prefix_of_every_message(desc):
+    """the constant prefix by which messages are attributed to coding objects (prefix tree of DiagLayer) is a prefix
+    of every PDU the coding object encodes - also when only the beginning of the triggering request is known"""
+    codec, specs, trigger = DESCRIPTIONS[desc]()
+    values = {name: _value(name, kind) for (name, kind) in specs}
+    request_bytes = H.bytes("triggering_request", 0, 5) if trigger else None
+    try:
+        pdu = codec.encode(coded_request=request_bytes, **values) if trigger else codec.encode(**values)
+    except OdxError:
+        return
+    H.cover("encoded")
+    parts = [codec.coded_const_prefix()]
+    if trigger:
+        parts = [codec.coded_const_prefix(bytes(request_bytes)[:j]) for j in range(5) if j <= len(request_bytes)]
+    for part in parts:
+        H.check("C06,C08:constant-prefix-is-a-prefix-of-the-pdu",
+                H.And(len(pdu) >= len(part), H.eq(bytes(pdu)[:len(part)], bytes(part))))
+
+
 @harness(props=["C05"], strength="B", family=_fam,
          bound="the same concrete descriptions; the message is a symbolic byte string of 0..8 bytes (0..14 for the length-key descriptions, so that keys beyond 64 bits are reachable)",
          functions=FUNCTIONS, covers=["decoded", "rejected"], assumes=["A-bitstruct", "A-lib"],
